@@ -67,6 +67,13 @@ impl RespParser {
             ]))));
         }
         
+        // A proper prefix of the raw "PING" may still become one once the rest arrives:
+        // wait for more data instead of rejecting 'P' as a type byte
+        let remaining = &self.buffer[self.position..];
+        if remaining.len() < 4 && b"PING".starts_with(remaining) {
+            return Ok(None);
+        }
+        
         // Handle normal RESP protocol
         match parse_frame(&self.buffer[self.position..])? {
             Some((frame, consumed)) => {
